@@ -52,6 +52,32 @@ def stored_index_vectors(prog):
     return out
 
 
+def _reindexes_holders(fn, shift_bb):
+    """After the shifting call in block shift_bb the function walks both places that hold indices
+    into memory_blocks and rewrites them: a values_mut()/iter_mut() over static_memory_blocks with a
+    store through the yielded reference, and a store into some State::memory_block_index."""
+    body = fn.body
+    after = body.reachable(shift_bb)
+    pv = mir.Prov(body)
+    walks_static = False
+    for b, t in body.calls():
+        if b in after and mir.callee_path(t).split("::")[-1] in ("values_mut", "iter_mut") \
+                and common.receiver_field(pv, t) == "static_memory_blocks":
+            walks_static = True
+    writes_state = False
+    writes_through_ref = False
+    for b in after:
+        for st in body.blocks[b]["s"]:
+            if st["k"] != "assign":
+                continue
+            proj = st["p"][1]
+            if any(isinstance(e, dict) and e.get("n") == "memory_block_index" for e in proj):
+                writes_state = True
+            if proj == ["*"]:
+                writes_through_ref = True
+    return walks_static and writes_through_ref and writes_state
+
+
 def r1_index_stable(ctx, rule="C03.R1"):
     prog = ctx.prog
     vecs = stored_index_vectors(prog)
@@ -73,6 +99,11 @@ def r1_index_stable(ctx, rule="C03.R1"):
                     continue
                 name = cp.split("::")[-1]
                 n += 1
+                if name in SHIFTING and field == "memory_blocks" and _reindexes_holders(fn, b):
+                    ctx.ok(rule, "%s:%s:%s:%s" % (rule, field, fn.name, name), "%s:%s" % (fn.file, t.get("ln")),
+                           "the shift is followed by a re-indexing of both index holders "
+                           "(static_memory_blocks values, State::memory_block_index)")
+                    continue
                 if name in SHIFTING:
                     owner = prog.enclosing_fn(fn) or fn
                     ctx.violation(rule, "%s:%s:%s:%s" % (rule, field, owner.path.split("::", 1)[1].split("::")[-1], name),
